@@ -8,6 +8,7 @@ import (
 	"reflect"
 	"sync"
 	"testing"
+	"time"
 
 	connect "github.com/bufbuild/connect-go"
 	"github.com/bufbuild/connect-go/verif/memnet"
@@ -25,6 +26,9 @@ type Case struct {
 	Behind  int          `json:"behind"`  // pass-through interceptors declared after WithRecover
 	Returns prog.ErrSpec `json:"returns"` // what the recovery function returns
 	Warmups int          `json:"warmups"` // non-panicking calls through the SAME handler before the call under test
+	// CtxDone: the handler waits until its context is done (the client's
+	// deadline, propagated to the server, has passed) and panics only then.
+	CtxDone bool `json:"ctx_done,omitempty"`
 }
 
 type passthrough struct{ connect.Interceptor }
@@ -79,6 +83,9 @@ func handlerProg(c Case) (*prog.HandlerProg, []prog.Msg) {
 		}
 	}
 	if c.Panic != "" {
+		if c.CtxDone {
+			hp.Steps = append(hp.Steps, prog.HStep{Op: "waitctx"})
+		}
 		hp.Steps = append(hp.Steps, pstep)
 		for i := 0; i < c.More; i++ {
 			hp.Steps = append(hp.Steps, prog.HStep{Op: "send", Msg: &prog.Msg{N: 1000 + int64(i)}})
@@ -144,6 +151,11 @@ func run(c Case, withRecover bool) (*prog.CResult, *memnet.Exchange, []recCall) 
 	if warmCalls != 0 {
 		return &prog.CResult{}, nil, []recCall{{value: "recovery function called during a non-panicking warm-up call"}, {}}
 	}
+	if c.CtxDone && c.Panic != "" {
+		var cancelT context.CancelFunc
+		ctx, cancelT = context.WithTimeout(ctx, time.Second) // virtual time
+		defer cancelT()
+	}
 	res := prog.RunClient(ctx, mem, c.Cfg, cp, cancel)
 	ex := mem.Last()
 	if ex != nil {
@@ -166,7 +178,7 @@ func check(tt *testing.T, c Case) (pbt.Info, error) {
 	if berr := pbt.Bubble(tt, func() error { res, ex, calls = run(c, true); return nil }); berr != nil {
 		return info, berr
 	}
-	where := fmt.Sprintf("%s/%s panic(%s) after %d steps, %d interceptors before and %d behind WithRecover", c.Cfg.Protocol, c.Cfg.Kind, c.Panic, c.After, c.Before, c.Behind)
+	where := fmt.Sprintf("%s/%s panic(%s) after %d steps (after its context ended: %v), %d interceptors before and %d behind WithRecover", c.Cfg.Protocol, c.Cfg.Kind, c.Panic, c.After, c.CtxDone, c.Before, c.Behind)
 	if ex == nil {
 		return info, fmt.Errorf("%s: no exchange", where)
 	}
@@ -225,6 +237,15 @@ func check(tt *testing.T, c Case) (pbt.Info, error) {
 	if !sameValue(calls[0].value, want) {
 		return info, fmt.Errorf("%s: recovery function received %#v (%T), a plain deferred recover() yields %#v (%T)", where, calls[0].value, calls[0].value, want, want)
 	}
+	if c.CtxDone {
+		// the client gave up at its deadline: what it reports is its own
+		// deadline error (C15), only the server-side clauses apply
+		info.Label("panic-after-context-done")
+		if res.CleanEnd {
+			return info, fmt.Errorf("%s: client saw success", where)
+		}
+		return info, nil
+	}
 	// the client receives the error the function returned, after the messages already sent
 	if res.CleanEnd || res.Err == nil {
 		return info, fmt.Errorf("%s: client saw success (received %d messages)", where, len(res.Received))
@@ -267,6 +288,7 @@ func gen(t *rapid.T) Case {
 		c.More = rapid.IntRange(0, 2).Draw(t, "more")
 	}
 	c.Warmups = rapid.SampledFrom([]int{0, 0, 1, 2}).Draw(t, "warmups")
+	c.CtxDone = c.Panic != "" && rapid.IntRange(0, 4).Draw(t, "ctxDone") == 0
 	c.Before = rapid.IntRange(0, 2).Draw(t, "before")
 	c.Behind = rapid.IntRange(0, 2).Draw(t, "behind")
 	if rapid.IntRange(0, 3).Draw(t, "plainret") == 0 {
@@ -285,7 +307,7 @@ func gen(t *rapid.T) Case {
 
 var spec = pbt.Spec[Case]{
 	Prop: "C19", Name: "recover", Gen: gen, Check: check,
-	Rule: "rapid-generated panic value (nil, error, *connect.Error, string, int, struct, pointer, runtime error, http.ErrAbortHandler, an error wrapping it) or a no-panic control × 4 RPC kinds × 3 protocols × 2 codecs × panic point (before any receive, after i receives, after j sends, with further sends scheduled) × position of WithRecover among 0..4 pass-through interceptors × what the recovery function returns (coded error with details/metadata, plain error) × 0..2 non-panicking calls through the same handler first; oracle: called exactly once with the value a plain deferred recover() yields for the same panic in the same binary (differential against the Go runtime, so both panicnil modes are covered), client receives exactly the returned error after the messages already sent, the abort sentinel is re-raised identically without calling the function, and a non-panicking exchange is byte-identical to the same handler without WithRecover; non-trivial = progress before the panic OR nil/abort value OR interceptors outside the recover interceptor",
+	Rule: "rapid-generated panic value (nil, error, *connect.Error, string, int, struct, pointer, runtime error, http.ErrAbortHandler, an error wrapping it) or a no-panic control × 4 RPC kinds × 3 protocols × 2 codecs × panic point (before any receive, after i receives, after j sends, with further sends scheduled; optionally only after the handler's context has ended because the propagated client deadline passed) × position of WithRecover among 0..4 pass-through interceptors × what the recovery function returns (coded error with details/metadata, plain error) × 0..2 non-panicking calls through the same handler first; oracle: called exactly once with the value a plain deferred recover() yields for the same panic in the same binary (differential against the Go runtime, so both panicnil modes are covered), client receives exactly the returned error after the messages already sent, the abort sentinel is re-raised identically without calling the function, and a non-panicking exchange is byte-identical to the same handler without WithRecover; non-trivial = progress before the panic OR nil/abort value OR interceptors outside the recover interceptor",
 }
 
 func TestRecover(t *testing.T) { pbt.Run(t, spec) }
